@@ -818,3 +818,74 @@ def reent_stream(tag, seed, n, **genkw):
         if mm != ii:
             bad.append((c, mm, ii))
     return cases, bad, nested
+# ------------------------------------------------------------------ systematic (scope, source, destination) sweep
+def _shape(spec, counter):
+    """spec: (kind, [children]) with kind in 'x' (exclusive, first child initial), 'n' (compound without initial),
+    'p' (parallel: every child initial), 'l' (leaf)"""
+    kind, kids = spec
+    counter[0] += 1
+    name = counter[0]
+    children = [_shape(k, counter) for k in kids]
+    if kind == 'p':
+        initial = [c['name'] for c in children]
+    elif kind == 'x' and children:
+        initial = [children[0]['name']]
+    else:
+        initial = []
+    return dict(name=name, enter=[1000 + name], exit=[2000 + name], onfinal=[], final=False, ignore=None,
+                initial=initial, events=[], children=children)
+
+
+L = ('l', [])
+SHAPES = [
+    [('x', [L, L]), L],
+    [('p', [('x', [L, L]), ('x', [L, L])]), L],
+    [('p', [('p', [('x', [L, L]), ('x', [L])]), ('x', [L, L])]), L],
+    [('n', [('x', [L, L]), L]), L],
+    [('p', [('x', [L, L]), ('x', [L, L]), ('x', [L])]), ('x', [L])],
+    [('x', [('p', [('x', [L, L]), L]), ('n', [L, L])]), ('x', [('x', [L])])],
+]
+
+
+def systematic_cases():
+    """every (setup state, source, destination or internal, declaring scope) combination on a catalogue of state
+    trees (exclusive, initial-less, parallel, parallel inside parallel, three regions): one global setup transition
+    from the initial top state to the setup state, then the transition under test - declared globally and, when a
+    compound contains both ends, inside that compound"""
+    import copy
+    out = []
+    for si, spec in enumerate(SHAPES):
+        counter = [0]
+        tops = [_shape(s, counter) for s in spec]
+        base = dict(states=tops, events=[], prepare_event=[], before_sc=[], after_sc=[], finalize=[], on_exception=[],
+                    on_final=[], ignore=False, send=False)
+        paths = [p for p, _ in all_defs(base)]
+        init = [tops[0]['name']]
+        for setup in [None] + paths:
+            for src in paths:
+                for dst in [None] + paths:
+                    scopes = [[]]
+                    k = 0
+                    while dst is not None and k < min(len(src), len(dst)) - 1 and src[k] == dst[k]:
+                        k += 1
+                    if dst is None:
+                        k = len(src) - 1
+                    if k >= 1:
+                        scopes.append(src[:k])
+                    for sc in scopes:
+                        m = copy.deepcopy(base)
+                        t = dict(src=src[len(sc):], dst=None if dst is None else dst[len(sc):], prepare=[], conds=[],
+                                 before=[3000], after=[3001])
+                        if sc:
+                            d = dict((tuple(p), dd) for p, dd in all_defs(m))[tuple(sc)]
+                            d['events'].append((0, [t]))
+                        else:
+                            m['events'].append((0, [t]))
+                        hist = [(0, 0, 101)]
+                        if setup is not None:
+                            m['events'].append((1, [dict(src=init, dst=setup, prepare=[], conds=[], before=[], after=[])]))
+                            hist = [(0, 1, 100), (0, 0, 101), (0, 0, 102)]
+                        m['events'].sort()
+                        out.append(dict(machine=m, env=dict(default=True, bypos={}, bycb={}), model=0, init=init,
+                                        history=hist, cls='HierarchicalMachine', shape=si))
+    return out
